@@ -4,8 +4,11 @@ package queuebatch
 
 import (
 	"context"
+	"fmt"
+	"math/rand/v2"
 	"os"
 	"runtime"
+	"strings"
 	"sync/atomic"
 	"testing"
 	"testing/synctest"
@@ -25,21 +28,71 @@ type vPSizer struct{}
 
 func (vPSizer) Sizeof(v uint64) int64 { return int64(v % 1000) }
 
+// vRestoreRnd is the case's generator, handed over by the script runner for the restart pre-phase.
+var vRestoreRnd *rand.Rand
+
+func init() { vSetRestoreRnd = func(r any) { vRestoreRnd = r.(*rand.Rand) } }
+
 // vNewPersistentRun wires a real persistentQueue (mock storage extension, fresh storage) into the script runner.
 func vNewPersistentRun(out *vOut, capacity int64, block, _, reqSized bool) *vQRun {
 	var sizer request.Sizer[uint64] = vPSizer{}
 	if reqSized {
 		sizer = request.RequestsSizer[uint64]{}
 	}
-	pq := newPersistentQueue[uint64](persistentQueueSettings[uint64]{
-		sizer: sizer, capacity: capacity, blockOnOverflow: block, signal: pipeline.SignalTraces, storageID: component.ID{},
-		encoding: uint64Encoding{}, id: component.NewID(exportertest.NopType), telemetry: componenttest.NewNopTelemetrySettings(),
-	}).(*persistentQueue[uint64])
-	if err := pq.Start(context.Background(), hosttest.NewHost(map[component.ID]component.Component{{}: storagetest.NewMockStorageExtension(nil)})); err != nil {
+	ext := storagetest.NewMockStorageExtension(nil)
+	host := hosttest.NewHost(map[component.ID]component.Component{{}: ext})
+	mkQueue := func(capa int64, blk bool) *persistentQueue[uint64] {
+		return newPersistentQueue[uint64](persistentQueueSettings[uint64]{
+			sizer: sizer, capacity: capa, blockOnOverflow: blk, signal: pipeline.SignalTraces, storageID: component.ID{},
+			encoding: uint64Encoding{}, id: component.NewID(exportertest.NopType), telemetry: componenttest.NewNopTelemetrySettings(),
+		}).(*persistentQueue[uint64])
+	}
+	// a reader client of its own on the same storage: the queue closes its client after Shutdown
+	reader, err := ext.GetClient(context.Background(), component.KindExporter, component.NewID(exportertest.NopType), pipeline.SignalTraces.String())
+	if err != nil {
+		panic(err)
+	}
+	restoreOp := ""
+	if vRestoreRnd != nil && vRestoreRnd.IntN(4) == 0 {
+		// an earlier life of the queue left requests behind (and, for the items sizer, a size snapshot `si` that may be stale);
+		// this life may have a smaller capacity
+		first := mkQueue(1000, false)
+		if err := first.Start(context.Background(), host); err != nil {
+			panic(err)
+		}
+		m := 1 + vRestoreRnd.IntN(6)
+		var sum int64
+		var sb strings.Builder
+		for i := 0; i < m; i++ {
+			el := int64(1 + vRestoreRnd.IntN(5))
+			if reqSized {
+				el = 1
+			}
+			if err := first.Offer(context.Background(), uint64(900+i)*1000+uint64(el)); err != nil {
+				panic(err)
+			}
+			sum += el
+			fmt.Fprintf(&sb, " %d %d", 900+i, el)
+		}
+		if err := first.Shutdown(context.Background()); err != nil {
+			panic(err)
+		}
+		restored := sum
+		if !reqSized && vRestoreRnd.IntN(2) == 0 {
+			restored = int64(vRestoreRnd.IntN(40)) // stale snapshot, in either direction
+			if err := reader.Set(context.Background(), queueSizeKey, itemIndexToBytes(uint64(restored))); err != nil {
+				panic(err)
+			}
+		}
+		restoreOp = fmt.Sprintf("op restore size=%d%s", restored, sb.String())
+	}
+	pq := mkQueue(capacity, block)
+	if err := pq.Start(context.Background(), host); err != nil {
 		panic(err)
 	}
 	return &vQRun{
-		out: out,
+		out:       out,
+		restoreOp: restoreOp,
 		offerFn: func(ctx context.Context, id int, size int64) error {
 			return pq.Offer(ctx, uint64(id)*1000+uint64(size))
 		},
@@ -52,7 +105,7 @@ func vNewPersistentRun(out *vOut, capacity int64, block, _, reqSized bool) *vQRu
 			var ids []int
 			pq.mu.Lock()
 			for i := pq.readIndex; i < pq.writeIndex; i++ {
-				buf, err := pq.client.Get(context.Background(), getItemKey(i))
+				buf, err := reader.Get(context.Background(), getItemKey(i))
 				if err != nil || len(buf) < 8 {
 					ids = append(ids, -1)
 					continue
